@@ -10,7 +10,8 @@ test), cef9727 (untruncated |Δt| in the comparison), 3e8ea1e (window bounds kee
 0287e21 (None when one side has no valid point), d3a4109 (gridded result), 3262c37 (None for
 an empty dataset).  Core Lean only.
 
-Both criteria are given (`max_interval` and `max_distance`); times are integers (ns);
+`collocate` models the call with both criteria (`max_interval` and `max_distance`),
+`collocateSpatial` the call with `max_interval=None`; times are integers (ns);
 `Pos` is an opaque position with decidable equality (= equality of the lat/lon doubles);
 a point with NaN latitude or longitude has `pos = none`.
 
@@ -326,6 +327,37 @@ def collocate (T : TreeFn Pos α) (shuf : Nat → List Pos → List Nat) (tn : T
           match toOriginal nn1 nn2 (kept.map (·.1)) with
           | .error e => (st', .error e)
           | .ok orig => (st', createReturn fp fs orig (kept.map (·.2.1)) (kept.map (·.2.2)))
+
+/-- `_get_intervals(time1[pairs[0]], time2[pairs[1]])` for the spatial-only search -/
+def intervalsOf {Pos : Type} (A B : List (NPt Pos)) (pairs : List (Nat × Nat)) : Except Err (List Int) :=
+  if pairs.all (fun p => p.1 < A.length && p.2 < B.length) then
+    .ok (pairs.filterMap (fun p =>
+      match A[p.1]?, B[p.2]? with
+      | some a, some b => some (((a.time - b.time).natAbs / 1000000000 : Nat) : Int)
+      | _, _ => none))
+  else .error .indexError
+
+/-- `Collocator.collocate(primary, secondary, max_distance=r)` with `max_interval=None`:
+spatial search only — no time window, no sorting (`start`/`end` are not used), always
+the direct search; every spatial pair is reported with its `⌊|Δt|⌋` seconds. -/
+def collocateSpatial (T : TreeFn Pos α) (shuf : Nat → List Pos → List Nat) (tn : Tuning)
+    (st : SState Pos) (p s : List (Line Pos)) (r : α) :
+    SState Pos × Except Err (Option (Result Pos α)) :=
+  if p.isEmpty || s.isEmpty then (st, .ok none) else
+  let fp := flatten p
+  let fs := flatten s
+  let A := dropNan fp
+  let B := dropNan fs
+  if A.isEmpty || B.isEmpty then (st, .ok none) else
+  match spatialSearch T shuf tn.mf st (A.map (·.pos)) (B.map (·.pos)) r with
+  | (st', .error e) => (st', .error e)
+  | (st', .ok (pairs, ds)) =>
+    match intervalsOf A B pairs with
+    | .error e => (st', .error e)
+    | .ok ivs =>
+      match toOriginal (notNanIdx fp) (notNanIdx fs) pairs with
+      | .error e => (st', .error e)
+      | .ok orig => (st', createReturn fp fs orig ivs ds)
 
 /-- the collocations of a result, identified by the carried ids, with stored interval
 and distance -/
